@@ -75,3 +75,15 @@ def _v41(repo, mod):
     fn = repo.func(DES, "CstStatementDeserializer._admit_small_statement")
     arm = find_stmt(fn, lambda s: isinstance(s, ast.If) and norm(s.test) == "isinstance(small, cst.Expr)")
     return insert_before(mod, arm.body[0], "if not isinstance(small.value, cst.Call):\n    return None")
+
+
+@variant("C24", "seed-file-by-first-substring-match", "pynguin.analyses.seeding", "C24.seed-file", "first file that carries the module name wins (the repaired defect)")
+def _v50(repo, mod):
+    from sa.selftest.harness import text_edit
+    return text_edit(mod, "        result.sort(key=lambda path: path.name != f\"test_{module_name}.py\")\n", "")
+
+
+@variant("C24", "string-literal-read-raw", "pynguin.large_language_model.parsing.deserializer", "C24.escape", "raw_value fast path (seed C24-e)")
+def _v51(repo, mod):
+    fn = repo.func("pynguin.large_language_model.parsing.deserializer", "_try_literal")
+    return insert_before(mod, fn.body[-1], "if isinstance(node, cst.SimpleString) and not node.prefix:\n        return node.raw_value")
